@@ -151,6 +151,7 @@ def main(argv=None):
             if a.v:
                 print('  job %s: %s %s' % (job_label(jobs[idx]), r['status'], r['reason'][:200]), flush=True)
     else:
+        n_inc = 0
         with ctx.Pool(nproc, maxtasksperchild=1) as pool:
             for idx, r in pool.imap_unordered(_worker, args, chunksize=1):
                 results[idx] = r
@@ -158,6 +159,16 @@ def main(argv=None):
                     print('  job %s: %s paths=%s %.1fs %s' % (
                         job_label(jobs[idx]), r['status'], r['stats'].get('paths'),
                         r['wall_s'], r['reason'][:300]), flush=True)
+                if r['status'] == 'INCONCLUSIVE':
+                    n_inc += 1
+                # the engine cannot model this tree (e.g. after a rewrite towards C-level byte handling):
+                # stop early - the verdict is INCONCLUSIVE whatever the remaining jobs say, unless a
+                # violation has been confirmed already (then keep going: it is reported)
+                if n_inc >= 40 and not any(x['status'] == 'VIOLATION' for x in results.values()):
+                    print('INCONCLUSIVE property=%s reason=%d jobs inconclusive so far: remaining %d jobs skipped'
+                          % (a.prop, n_inc, len(args) - len(results)), flush=True)
+                    pool.terminate()
+                    break
     return finish(a, mod, jobs, results, known, root, seed, t0, partial=bool(a.only))
 
 
